@@ -34,8 +34,11 @@ pub fn export(args: &[String]) -> i32 {
     0
 }
 
-fn event(dist: &str, word: u64, tail_seed: u64, tag: &str) -> String {
-    let mut r64 = ScriptRng::new(vec![word], tail_seed);
+fn event(dist: &str, word: u64, tail_seed: u64, tag: &str) -> String { event_w(dist, vec![word], tail_seed, tag) }
+
+fn event_w(dist: &str, words_script: Vec<u64>, tail_seed: u64, tag: &str) -> String {
+    let word = words_script[0];
+    let mut r64 = ScriptRng::new(words_script, tail_seed);
     let mut r32 = r64.clone();
     let (o64, o32): (Result<f64, String>, Result<f32, String>) = if dist == "norm" {
         (guarded(|| StandardNormal.sample(&mut r64)), guarded(|| StandardNormal.sample(&mut r32)))
@@ -74,6 +77,27 @@ pub fn drive(args: &[String]) -> i32 {
             for m in ms {
                 let word = (m << 12) | ((rnd.below(16)) << 8) | i;
                 out.push(event(dist, word, rnd.next(), "scripted"));
+            }
+        }
+        // extreme classes whose accept / reject outcome follows from monotonicity alone (no exp / ln needed):
+        let umax = u64::MAX; let umin = 0u64;
+        for i in 1..256u64 {
+            // wedge of layer i: u just above the rectangle edge, then the wedge uniform at its extremes
+            let edge = xt[i as usize + 1] / xt[i as usize];
+            let m = if dist == "norm" { (((edge + 1.0) / 2.0) * 4503599627370496.0) as u64 + 4 } else { (edge * 4503599627370496.0) as u64 + 4 };
+            let w0 = (m.min((1 << 52) - 1) << 12) | i;
+            out.push(event_w(dist, vec![w0, umin], rnd.next(), "wedge U=0"));      // f[i+1] < pdf(x) is false for x >= x[i+1]: reject
+            out.push(event_w(dist, vec![w0, umax], rnd.next(), "wedge U=max"));    // ~f[i] < pdf(x) for x just above x[i+1]: accept
+        }
+        for neg in [false, true] {
+            // base strip beyond the rectangle: |u| = max
+            let m: u64 = if dist == "norm" { if neg { 0 } else { (1 << 52) - 1 } } else { (1 << 52) - 1 };
+            let w0 = m << 12;
+            if dist == "norm" {
+                out.push(event_w(dist, vec![w0, umax, umin], rnd.next(), "tail x~0 y=min"));   // x = ln(U1)/R ~ 0, -2y huge: accept at once
+                out.push(event_w(dist, vec![w0, umin, umax], rnd.next(), "tail x big y~0"));   // x^2 huge, -2y ~ 0: reject
+            } else {
+                out.push(event_w(dist, vec![w0, umax], rnd.next(), "tail U=max"));            // R - ln(U), U ~ 1: the result is R
             }
         }
         for _ in 0..nrand { out.push(event(dist, rnd.next(), rnd.next(), "random")); }
